@@ -106,6 +106,8 @@ class FactorHooks:
                 for other in nds[1:]:
                     out = self.elementwise(eng, st, out, other, node, 'where')
                 return NDV(out.labels, out.dims, eng.fresh('where', V))
+        if name in ('np.sum', 'np.max', 'logsumexp', 'np.min', 'np.prod') and args and isinstance(args[0], NDV) and isinstance(kw.get('axis'), Arr) and len(args) == 1:
+            return self.reduce(eng, st, args[0], kw['axis'], node, short)
         if name == 'Factor' and len(args) == 2 and isinstance(args[1], NDV):
             return self.construct(eng, st, args[0], args[1], node)
         return NotImplemented
@@ -178,6 +180,24 @@ class FactorHooks:
         labels = Arr(n, lambda e, s, p: v.labels.at(e, s, inv(p)), name='labels-moved')
         dims = Arr(n, lambda e, s, p: v.dims.at(e, s, inv(p)), name='dims-moved')
         return NDV(labels, dims, eng.fresh('moved', V))
+
+    def reduce(self, eng, st, v, axes, node, what):
+        """f(a, axis=axes): the axes at the listed positions disappear, the others keep their order.
+        numpy requires the positions to be in range and pairwise distinct."""
+        j0 = eng.fresh('ax', I)
+        s1 = st.fork()
+        s1.assume(z3.And(j0 >= 0, j0 < axes.n))
+        aj = axes.at(eng, s1, j0).t
+        eng.oblige(s1, '%s/axis-in-range@L%d' % (what, node.lineno), z3.And(aj >= 0, aj < v.labels.n), kind='numpy-precondition')
+        s2 = st.fork()
+        w = eng.first_index(s2, axes, axes.at(eng, s2, j0))[0]
+        s2.assume(z3.And(j0 >= 0, j0 < axes.n))
+        eng.oblige(s2, '%s/axes-distinct@L%d' % (what, node.lineno), w == j0, kind='numpy-precondition')
+        keep = lambda e, s, i: z3.Not(e.membership(s, axes, E.Num(i)))
+        labels = eng.make_filter(st, v.labels, keep, name='labels-kept')
+        pos = labels.pos
+        dims = Arr(labels.n, lambda e, s, j: v.dims.at(e, s, pos(j)), name='dims-kept')
+        return NDV(labels, dims, eng.fresh(what, V))
 
     def broadcast(self, eng, st, v, shape, node):
         p = eng.fresh('bc', I)
